@@ -117,6 +117,34 @@ def exc_name(e):
     return EXC.get(type(e).__name__, "Other:" + type(e).__name__)
 
 
+def early_write(h, wr, labels, workdir, tag="early"):
+    """an additional write_to_file in the middle of a history, with the same one-dict label list object (and column list)
+    that the final write uses; returns the exception name or None.  Only used when the labels are valid for any number of
+    histograms (one dict holding every requested column, all columns known)."""
+    path = os.path.join(workdir or "/tmp", f"hist_{tag}_{os.getpid()}.csv")
+    try:
+        if wr.get("columns") is None:
+            h.write_to_file(path, labels)
+        else:
+            h.write_to_file(path, labels, columns=list(wr["columns"]))
+        return None
+    except Exception as e:
+        return exc_name(e)
+    finally:
+        try:
+            os.remove(path)
+        except OSError:
+            pass
+
+
+def early_write_applies(wr):
+    if wr is None or wr.get("early_at") is None:
+        return False
+    labels, cols = wr["labels"], wr.get("columns")
+    req = list(DEFAULT_COLUMNS) if cols is None else list(cols)
+    return len(labels) == 1 and all(c in DEFAULT_COLUMNS for c in req) and all(c in labels[0] for c in req)
+
+
 def run_impl(case, workdir=None):
     """real code: the state after every operation (None once an exception ended the history), the exception,
     the geometry accessors and the parsed CSV of write_to_file"""
@@ -136,9 +164,13 @@ def run_impl(case, workdir=None):
             out["init_exc"] = exc_name(e)
             return out
         out["init"] = snap(h)
-        for o in case["ops"]:
+        wr0 = case.get("write")
+        shared_labels = json.loads(json.dumps(wr0["labels"])) if wr0 is not None else None    # ONE object for every write
+        for step, o in enumerate(case["ops"]):
             try:
                 apply_op(h, o)
+                if early_write_applies(wr0) and wr0["early_at"] == step:
+                    out["early_write_exc"] = early_write(h, wr0, shared_labels, workdir)
             except Exception as e:
                 out["exc"] = exc_name(e)
                 out["trace"].append({"exc": out["exc"]})
@@ -158,9 +190,9 @@ def run_impl(case, workdir=None):
             path = os.path.join(workdir or "/tmp", f"hist_{os.getpid()}.csv")
             try:
                 if wr.get("columns") is None:
-                    h.write_to_file(path, wr["labels"])
+                    h.write_to_file(path, shared_labels)
                 else:
-                    h.write_to_file(path, wr["labels"], columns=list(wr["columns"]))
+                    h.write_to_file(path, shared_labels, columns=list(wr["columns"]))
                 out["write"] = {"tables": parse_csv(path, out["final"]["nbins"])}
             except Exception as e:
                 out["write"] = {"exc": exc_name(e)}
@@ -397,10 +429,10 @@ def gen_init(rng, allow_bad=True):
         n = rng.choice([1, 2, 2, 3, 4, 4, 5, 8])
         step = rng.choice([0.25, 0.5, 1.0, 2.0, 0.75])
         return {"kind": "tuple", "lo": lo, "hi": lo + n * step, "n": n}
-    if r < 0.45:                                   # uniform tuple, rounded edges
-        lo = rng.choice([0.0, 0.1, -1.0, 0.3])
-        n = rng.choice([3, 5, 6, 7])
-        return {"kind": "tuple", "lo": lo, "hi": lo + rng.choice([1.0, 0.7, 2.0]), "n": n}
+    if r < 0.45:                                   # uniform tuple, rounded edges (width not representable: the last
+        lo = rng.choice([0.0, 0.1, -1.0, 0.3, -0.9, -0.2, 0.7])      # edge must still be hi exactly, as np.linspace gives)
+        n = rng.choice([3, 5, 6, 7, 9, 10, 11])
+        return {"kind": "tuple", "lo": lo, "hi": lo + rng.choice([1.0, 0.7, 2.0, 0.9, 3.2, 0.2, 0.4, 2.9, 1.8]), "n": n}
     if r < 0.50 and allow_bad:                     # rejected tuples
         return rng.choice([{"kind": "tuple", "lo": 1.0, "hi": 1.0, "n": 3}, {"kind": "tuple", "lo": 2.0, "hi": 1.0, "n": 3},
                            {"kind": "tuple", "lo": 0.0, "hi": 1.0, "n": 0}, {"kind": "tuple", "lo": 0.0, "hi": 1.0, "n": -2},
@@ -446,7 +478,10 @@ def edges_of(init):
 def gen_value(rng, edges):
     r = rng.random()
     if r < 0.45:
-        return rng.choice(edges)
+        e = rng.choice(edges)
+        if rng.random() < 0.12:                     # the doubles next to an edge
+            e = math.nextafter(e, rng.choice([-math.inf, math.inf]))
+        return e
     lo, hi = min(edges), max(edges)
     if r < 0.80 and len(edges) > 1:
         i = rng.randrange(len(edges) - 1)
